@@ -7330,6 +7330,15 @@ fn eval_break(env: &mut Env, expr_value_is_used: bool) {
 
         match &expr.expr_ {
             Expression_::While(_, _) => {
+                // The loop body pushed a bindings block that its
+                // DoneRunBlock step would have popped.
+                if matches!(
+                    expr_state,
+                    ExpressionState::PartiallyEvaluated(BlockState::DoneRunBlock)
+                ) {
+                    env.current_frame_mut().bindings.pop_block();
+                }
+
                 env.current_frame_mut()
                     .exprs_to_eval
                     .push((ExpressionState::EvaluatedSubexpressions, Rc::clone(&expr)));
@@ -7355,10 +7364,7 @@ fn eval_break(env: &mut Env, expr_value_is_used: bool) {
                 // We're exiting a block that wasn't part of a loop
                 // (i.e. a match case or an if/else block), so we
                 // should pop the bindings block here too.
-                if matches!(
-                    expr_state,
-                    ExpressionState::PartiallyEvaluated(BlockState::DoneRunBlock)
-                ) {
+                if is_running_block(&expr, expr_state) {
                     env.current_frame_mut().bindings.pop_block();
                 }
 
@@ -7394,7 +7400,24 @@ fn eval_continue(env: &mut Env) {
             env.push_expr_to_eval(expr_state, expr);
             break;
         }
+
+        // We're exiting a block inside the loop body (i.e. a match
+        // case or an if/else block), so pop its bindings block.
+        if is_running_block(&expr, expr_state) {
+            env.current_frame_mut().bindings.pop_block();
+        }
     }
+}
+
+/// Is `expr` an `if`, `match` or `try` whose block is currently
+/// running? Such an expression has pushed a bindings block, which it
+/// pops when it reaches the EvaluatedSubexpressions step.
+fn is_running_block(expr: &Expression, expr_state: ExpressionState) -> bool {
+    matches!(expr_state, ExpressionState::EvaluatedSubexpressions)
+        && matches!(
+            expr.expr_,
+            Expression_::If(_, _, _) | Expression_::Match(_, _) | Expression_::Try(_, _, _)
+        )
 }
 
 fn eval_namespace_access(
